@@ -173,9 +173,20 @@ def revoke_graph(ctx, prog):
                         ag = rr.blocks[o[1]]["stmts"][o[2]]["rv"]["agg"]
                         if ag["kind"] == "adt" and ag["adt"].endswith("::EntityReactionType"):
                             ert = ag["vname"]
+            if ert is None or len({rr.blocks[o[1]]["stmts"][o[2]]["rv"]["agg"]["vname"] for a in t["args"] for o in origins(rr, a) if o[0] == "agg"
+                                   and rr.blocks[o[1]]["stmts"][o[2]]["rv"]["agg"].get("adt", "").endswith("::EntityReactionType")}) > 1:
+                # the kind travels inside another value built in this arm (`Location::Component(Kind::Insertion(id))`): read it
+                # from the definitions of this arm only
+                erts = set()
+                for a in t["args"]:
+                    ag_ = lib.region_agg(rr, region, a)
+                    if ag_ and ag_.get("kind") == "adt" and ag_.get("adt", "").endswith("::EntityReactionType"):
+                        erts.add(ag_["vname"])
+                ert = next(iter(erts)) if len(erts) == 1 else ert
             info["callee"] = cb
             info["ert_variant"] = ert
-            if nm == "revoke_entity_reactor" or (cb.calls_named(lambda n: lib.tail(n, 2) == "EntityReactors::remove")):
+            if nm == "revoke_entity_reactor" or (cb.calls_named(lambda n: lib.tail(n, 2) == "EntityReactors::remove")) \
+                    or (nm == "remove" and lib.impl_self_name(cb) == "EntityReactors"):       # (the helper itself was inlined)
                 info["scope"] = "entity"
             elif nm == "revoke_component_reactor":
                 info["scope"] = "table"
